@@ -19,6 +19,7 @@ RULE = ('scoping scenarios: programs of 2-9 statements over a small pool of name
         'and host callbacks, bodies that raise at any depth under a host callback try_ that swallows the error and lets the program continue, ast_names lambdas with multi-statement '
         'bodies that assign (plain and compound) to parameter, local, host and builtin names. Non-trivial = at least one lambda call happened and all monitors ran; '
         'distinct = distinct (program text, ast_names body).')
+RULE += ' Host callback reenter(k) evaluates another program on the same parser with its own names while the call is in flight (reference side: R2).'
 ASSUMPTIONS = ['R2 (lib/refeval.py) defines the expected result and host names: innermost-first resolution, top-level assignments written to the host mapping, parameters and '
                'lambda-local assignments vanish with the call',
                'try_(f, args...) is a host callback that calls the program lambda and swallows any Exception']
